@@ -282,6 +282,7 @@ class Run:
         self._wl0 = 0
         self._ev0 = 0
         self.on_stop_runlogs: list = []
+        self.injected_nodes: list = []
         self.on_stop_failure_nodes: dict = {}
         self._hook_on_stop()
         self._hook_error_state()
@@ -376,6 +377,13 @@ class Run:
             rec["error"] = type(ex).__name__
         rec["mstate_after"] = self.method_state()
         self.requests.append(rec)
+        # the injected nodes are not part of the program tree: remember them so that their flags can be observed
+        try:
+            for it in self.engine.interpreter.interrupts:
+                if type(it.node).__name__ == "InjectedNode" and all(it.node is not n for n in self.injected_nodes):
+                    self.injected_nodes.append(it.node)
+        except Exception:
+            pass
         return rec
 
     def cancel(self, instance_id: str) -> dict:
